@@ -5,6 +5,7 @@ package main
 
 import (
 	"fmt"
+	"os"
 	"go/types"
 	"math"
 	"sort"
@@ -685,6 +686,9 @@ func callND(fr *frame, name string, args []value) value {
 		yield(ndName(args[0]))
 		return nil
 	case "Note":
+		if os.Getenv("GOSYM_NOTES") != "" {
+			fmt.Fprintln(os.Stderr, "NOTE:", toString(args[0]))
+		}
 		return nil
 	case "Setenv":
 		envOverride[ndName(args[0])] = ndName(args[1])
@@ -726,7 +730,11 @@ func ndRecovered(fr *frame, f value) (res value) {
 		if isEnginePanic(r) {
 			panic(r)
 		}
-		res = tuple{true, "PANIC: " + panicString(fr.i, fr, r)}
+		where := ""
+		if lastPanic.payload == r {
+			where = " @ " + lastPanic.where
+		}
+		res = tuple{true, "PANIC: " + panicString(fr.i, fr, r) + where}
 	}()
 	savedDepth := ex.depth
 	defer func() { ex.depth = savedDepth }()
@@ -1370,12 +1378,12 @@ func extErrorsIs(fr *frame, a []value) value {
 				return true
 			}
 		}
-		if m := fr.i.prog.LookupMethod(err.t, nil, "Is"); m != nil && m.Signature.Params().Len() == 1 && m.Signature.Results().Len() == 1 {
+		if m := safeLookupMethod(fr.i, err.t, "Is"); m != nil && m.Signature.Params().Len() == 1 && m.Signature.Results().Len() == 1 {
 			if cbool(callSSA(fr.i, fr, fr.pos, m, []value{err.v, target}, nil)) {
 				return true
 			}
 		}
-		m := fr.i.prog.LookupMethod(err.t, nil, "Unwrap")
+		m := safeLookupMethod(fr.i, err.t, "Unwrap")
 		if m == nil || m.Signature.Params().Len() != 0 || m.Signature.Results().Len() != 1 {
 			return false
 		}
@@ -1398,4 +1406,14 @@ func extErrorsIs(fr *frame, a []value) value {
 		}
 	}
 	return false
+}
+
+// safeLookupMethod returns the exported method `name` of t, or nil when t has none.
+func safeLookupMethod(i *interpreter, t types.Type, name string) *ssa.Function {
+	ms := i.prog.MethodSets.MethodSet(t)
+	sel := ms.Lookup(nil, name)
+	if sel == nil {
+		return nil
+	}
+	return i.prog.MethodValue(sel)
 }
